@@ -153,13 +153,8 @@ func arrayHasSuffix(suffix rel.Value, subject rel.Array) (rel.Value, error) {
 	suffixVals := suffixArray.Values()
 	suffixOffset := suffixArray.Count() - 1
 
-	for _, val := range subjectVals[subject.Count()-1:] {
-		if suffixOffset > -1 && val.Equal(suffixVals[suffixOffset]) {
-			suffixOffset--
-			if suffixOffset == -1 {
-				break
-			}
-		} else {
+	for i := len(subjectVals) - 1; suffixOffset > -1; i, suffixOffset = i-1, suffixOffset-1 {
+		if subjectVals[i] == nil || !subjectVals[i].Equal(suffixVals[suffixOffset]) {
 			return rel.NewBool(false), nil
 		}
 	}
